@@ -25,7 +25,7 @@ class Case:
         self.faults = []
 
 
-def build_consistent(r, case, depth=3, nfiles=None, allow_multi=True):
+def build_consistent(r, case, depth=3, nfiles=None, allow_multi=True, dups=True):
     """directories, files, and a consistent Manifest hierarchy"""
     t = Tree()
     dirs = ['']
@@ -91,7 +91,7 @@ def build_consistent(r, case, depth=3, nfiles=None, allow_multi=True):
         else:
             target.append(ET.entry_line(tag, rel, data, hs))
         # duplicates: same Manifest or an ancestor, same / other hash set
-        if r.random() < 0.15:
+        if r.random() < 0.15 and dups:
             g2 = r.choice(['', g])
             rel2 = os.path.relpath(p, g2) if g2 else p
             hs2 = r.choice([hs, r.sample(GOOD_HASHES, r.randint(0, 3)), []])
